@@ -149,6 +149,21 @@ def gen_cases(tier, seed):
         if L and rnd.random() < 0.3:
             L[0] = sorted(set(L[0]) | {M32})
         cases.append({"kind": "many", "L": L})
+    # long lists: a multi-way union that folds or batches its operands has a boundary at some NUMBER of arrays; every
+    # array owns one element no other array has (losing an array loses an element) next to shared ones; every length
+    # 7..40 (and around every constant of the source), with the owned element placed first, last or in the middle
+    ks = set(range(7, 41 if tier == "quick" else 70)) | {c + d for c in harvest_pyx_constants() for d in (-1, 0, 1) if 7 <= c + d <= 300}
+    for k in sorted(ks):
+        for where in ("first", "last", "mid"):
+            shared = sorted(rnd.sample(range(1000, 1200), rnd.randint(0, 6)))
+            L = []
+            for q in range(k):
+                own = {"first": q, "last": 5000 + q, "mid": 1100 + 0 * q}[where]
+                mine = sorted(set(rnd.sample(shared, rnd.randint(0, len(shared))) + ([own] if where != "mid" else [2000 + q, 10 + q])))
+                L.append(mine)
+            if rnd.random() < 0.3:
+                L.insert(rnd.randrange(len(L)), [])
+            cases.append({"kind": "many", "L": L})
     return cases
 
 
